@@ -269,8 +269,22 @@ func TestDeadlockDetected(t *testing.T) {
 		var wg sync.WaitGroup
 		r := Run(cfgFor(seed), func() {
 			WGAdd(&wg, 2)
-			Go(func() { Lock(&a); Yield(); Lock(&b); Unlock(&b); Unlock(&a); WGDone(&wg) })
-			Go(func() { Lock(&b); Yield(); Lock(&a); Unlock(&a); Unlock(&b); WGDone(&wg) })
+			Go(func() {
+				Lock(&a)
+				Yield()
+				Lock(&b)
+				Unlock(&b)
+				Unlock(&a)
+				WGDone(&wg)
+			})
+			Go(func() {
+				Lock(&b)
+				Yield()
+				Lock(&a)
+				Unlock(&a)
+				Unlock(&b)
+				WGDone(&wg)
+			})
 			WGWait(&wg)
 		})
 		if r.Deadlock != "" {
